@@ -7,6 +7,9 @@
 (*             textually identical declarations in anchoring and              *)
 (*             non-anchoring position evaluated at the same node              *)
 (*   "order"   an array with 11 constant children (fqdn string order)         *)
+(*   "cast"    root{ f1: X, f2: Y }, root{ f1: array[X] }: X, Y typed sources   *)
+(*             (script results of every kind) and fields / consts under every  *)
+(*             result type - the conversion matrix                             *)
 (*   "dyn"     root{ f1: dynfield[C], f2: X } and root{ f1: array[dynfield[C]], *)
 (*             f2: X }: computed xpaths whose computation succeeds, is empty   *)
 (*             or fails, next to a declaration with the same text             *)
@@ -49,8 +52,15 @@ DynChildV == {V("field", xp, "none", FALSE, FALSE, "") : xp \in 1..4} \cup {V("c
 DynOK(d, t) == \A i \in 1..t.m : t.kind[i] = "dynfield" =>
                  LET v == RefEval(d, t, TKids(t, i)[1], 1) IN v \in {NilV, FailV, <<"s", "a">>, <<"s", "b">>}
 
+Types == {"none", "int", "float", "boolean", "string"}
+JsV == {V("jsconst", 0, ty, FALSE, keep, lit) : ty \in Types, keep \in {FALSE}, lit \in {"int:7", "float:1.5", "bool:true", "str:1", "str:1.5", "str:x", "str:true"}}
+TypedV == JsV \cup {V("field", xp, ty, FALSE, FALSE, "") : xp \in {0, 1}, ty \in Types}
+              \cup {V("const", 0, ty, nt, FALSE, lit) : ty \in Types, nt \in BOOLEAN, lit \in {"1", " y ", ""}}
 Trees ==
-  CASE Family = "dyn" ->
+  CASE Family = "cast" ->
+         { Mk(3, <<0, 1, 1>>, <<V("object", 0, "none", FALSE, FALSE, ""), x, y>>) : x \in TypedV, y \in JsV }
+         \cup { Mk(3, <<0, 1, 2>>, <<V("object", 0, "none", FALSE, FALSE, ""), V("array", 0, "none", FALSE, FALSE, ""), x>>) : x \in TypedV }
+    [] Family = "dyn" ->
          { Mk(4, <<0, 1, 2, 1>>, <<V("object", 0, "none", FALSE, FALSE, ""), dv, c, x>>) : dv \in DynV, c \in DynChildV, x \in FieldV \cup DynChildV }
          \cup { Mk(5, <<0, 1, 2, 3, 1>>, <<V("object", 0, "none", FALSE, FALSE, ""), V("array", 0, "none", FALSE, FALSE, ""), dv, c, x>>) :
                    dv \in DynV, c \in DynChildV, x \in DynChildV }
